@@ -110,4 +110,50 @@ TABLE = {
         "note": _NOTE + " Reply timing, select behaviour and byte-stream splits are schedules over a device - not decided.",
         "technique": "sibling call-site agreement, constant folding + regular-language equality of response patterns, CFG dominance (swap covers all sources), def-use of the colour scale",
     },
+    "C02": {
+        "text": "The structural core of the run-length state machine: the run-boundary predicate is canonicalised (chained comparisons -> relation sets) and must be "
+                "invariant under the upper<->lower renaming and contain the 2 colour tests + 4 alpha-transition tests; every loop-carried variable read by the flush "
+                "closure is updated after a flush; the emission branches are mirror images; the kitty workaround tests the cluster it nudges; alpha classification "
+                "(round_alpha, strict <, compositing under state-only conditions).",
+        "note": _NOTE + " Every actual colour / alpha value (PIL resampling, compositing) is runtime data - not decided.",
+        "technique": "symmetry check of a canonicalised boolean formula under a renaming, free-variable / loop-carried state completeness, branch-table symmetry, guard-set analysis",
+    },
+    "C04": {
+        "text": "Necessary structure of the sizing code: every return of _valid_size clamps both dimensions with `or 1`; unit conversions are inverse pairs sharing one "
+                "unit source per axis with _get_render_size; dynamic sizes are re-evaluated on every access, never memoised, restored after rendering, with a closed set "
+                "of writers; every Size member is handled; AUTO tests exactly ORIGINAL's pixel size; the two FIT branches mirror each other under width<->height.",
+        "note": _NOTE + " The fit/fill/aspect inequalities (float rounding over five quantities) need a relational numeric domain or a solver - NOT decided by this family.",
+        "technique": "return-shape rule, inverse-pair and sibling (renaming) agreement, who-may-write / who-may-cache query, enum exhaustiveness",
+    },
+    "C06": {
+        "text": "The cursor bookkeeping is arithmetic over symbols, decided as an affine computation: each write in the animation drivers is mapped to a row displacement "
+                "polynomial (frame of h lines: h-1; newline: 1; cursor_up(e): -e; ...); obligations: loop iteration row-neutral, after the first frame at the top of the "
+                "render region, on normal completion on the last line of the padded region (then exactly one newline). Plus operand signs, validate-before-write with the "
+                "documented width/height/scroll predicate, complementary version predicates for per-frame clearing.",
+        "note": _NOTE + " What a terminal does with the bytes (scrolling at the bottom, margins) is not decided. One recorded known finding (K1, old API ends `lines` rows too low).",
+        "technique": "affine dataflow of the cursor row over a transfer table (polynomial normal forms), sign analysis, guard-conjunct analysis, order/dominance checks",
+    },
+    "C11": {
+        "text": "Ownership discipline of PIL images with few named primitives: who-may-close (only fresh objects, or through _close_image which spares the source), "
+                "must-release on every normal path of every renderer (CFG), release-before-rebind with finally for the declared-fallible steps, iterator bookkeeping "
+                "(seek position set before each render and reset at both ends of pass, image recorded/released, generators owning images never overwritten), builtin "
+                "open() always in a with, temp copy created after successful construction and removed on failed write.",
+        "note": _NOTE + " Frame equality with direct formatting, tell() under arbitrary seeks and HTTP behaviour are not decided; exceptional paths other than the declared-fallible ones rely on CPython reference counting. Two recorded known findings (K2a/K2b).",
+        "technique": "ownership / must-release typestate on the CFG, freshness analysis for close sites, dominance (mkstemp after construction), call-order checks",
+    },
+    "C17": {
+        "text": "Only the structural clauses: rows() and render() take the same decision from the same _valid_size inputs; the row assembly order (reset between image and "
+                "right padding), backward colour recovery up to the last 'm', fast path only without horizontal trim; the canvas uses its recorded image size and the same "
+                "centre split as _format_render.",
+        "note": _NOTE + " The main clause - trimmed canvas == crop of the full canvas, including _ti_calc_trim's case arithmetic - is byte-level runtime data and is NOT decided.",
+        "technique": "sibling (normalised-AST) agreement of twin computations, list-order rule, who-may-read query on the live image",
+    },
+    "C18": {
+        "text": "Synchronized-update bracket (BEGIN immediately before a try whose finally writes END and flushes, all output inside), delete-before-draw through the buffered "
+                "stream, view identity includes every geometric component unpacked from the canvas view, views updated on every inspecting path (CFG), clear on "
+                "start/stop/clear with a disguise change on every path, single z-index allocator accessed via __class__ with overflow test and successor function, "
+                "frozenset kind of _ti_image_cviews, lock-decorated I/O overrides.",
+        "note": _NOTE + " Which placements a layout history leaves on the terminal depends on shard geometry at run time - not decided.",
+        "technique": "pairing (bracket) rule, must-pass-through on the CFG, key-completeness (unpacked components subset of key), who-may-write on allocator state, kind check",
+    },
 }
